@@ -1,23 +1,13 @@
 (* TokenProofs.v — the parser gives back a value item from the tokens of its
    printed form (C04, token level, value items of the integer, unsigned,
-   binary and boolean formats; float text is an oracle and is left out). *)
-From Secs Require Import Ast FloatProofs Fill Msg WireSpec WireLemmas WireValues HeaderProofs WireEnc WireDec MsgProofs AstProofs FillProofs FillCompose.
+   binary, boolean and float formats; the text of a float is an oracle on both
+   sides — what is assumed of it is stated as a hypothesis, [slot_scans]). *)
+From Secs Require Import Ast FloatProofs FloatRound Fill Msg WireSpec WireLemmas WireValues HeaderProofs WireEnc WireDec MsgProofs AstProofs FillProofs FillCompose.
 From Secs Require Import Utf8 Lexer Parser SmlNumbers SmlProofs.
 Open Scope Z_scope.
 
 Definition nk_of (k : kind) (w : nat) : numkind :=
   match k with KInt => NKInt w | KUint => NKUint w | KBin => NKBin | KBool => NKBool | KFloat => NKFloat w end.
-
-(* the token the lexer makes of one printed element *)
-Definition slot_token (k : kind) (x : slot) : token :=
-  match x with
-  | SX n => mk TVariable n 0
-  | SV v => match k with
-            | KBool => mk TBool (if v =? 0 then [x46] else [x54]) 0
-            | KBin => mk TNumber (x30 :: x62 :: fmt_bin v) 0
-            | _ => mk TNumber (fmt_int v) 0
-            end
-  end.
 
 Lemma parse_int_zero bits : 0 < bits -> parse_int (fmt_int 0) bits = (0, NumOk).
 Proof.
@@ -49,17 +39,90 @@ Proof.
   destruct (Z.leb_spec 9223372036854775808 v); [lia|reflexivity].
 Qed.
 
+(* a widened float32 is within the float32 range *)
+Lemma widened_in_range b : is_u32 b -> f32_finite b = true -> abs_le_maxf32 (f32_to_f64 b) = true.
+Proof.
+  intros Hu Hfin. destruct (f32_fields b Hu) as (s & e & f & Eb & Hs & He & Hf & Es & Ee & Ef).
+  unfold f32_finite in Hfin. rewrite Ee in Hfin. apply negb_true_iff in Hfin. apply Z.eqb_neq in Hfin.
+  unfold abs_le_maxf32, max_f32_as_f64, f32_to_f64. rewrite Es, Ee, Ef.
+  destruct (Z.eqb_spec e 255); [lia|]. apply Z.leb_le.
+  destruct (Z.eqb_spec e 0) as [E0|E0].
+  - destruct (Z.eqb_spec f 0) as [F0|F0].
+    + destruct Hs as [->| ->]; cbn; lia.
+    + assert (Hfp : 0 < f) by lia.
+      pose proof (Z.log2_spec f Hfp) as Hl. pose proof (Z.log2_nonneg f) as Hl0.
+      assert (Hl22 : Z.log2 f <= 22).
+      { assert (Z.log2 f < 23); [|lia]. apply Z.log2_lt_pow2; [exact Hfp|]. change (2 ^ 23) with 8388608. lia. }
+      set (l := Z.log2 f) in *. set (P := 2 ^ l) in *. set (Q := 2 ^ (52 - l)).
+      assert (HPQ : P * Q = 4503599627370496).
+      { subst P Q. rewrite <- Z.pow_add_r by lia. replace (l + (52 - l)) with 52 by lia. reflexivity. }
+      assert (HP : 0 < P) by (subst P; apply Z.pow_pos_nonneg; lia).
+      assert (HQ : 0 < Q) by (subst Q; apply Z.pow_pos_nonneg; lia).
+      assert (Hf2 : f < 2 * P) by (replace (2 ^ Z.succ l) with (2 * 2 ^ l) in Hl by (rewrite Z.pow_succ_r by lia; reflexivity); lia).
+      assert (Hg : 0 <= (f - P) * Q < 4503599627370496) by nia.
+      set (g := (f - P) * Q) in *.
+      assert (Hmod : (s * 9223372036854775808 + (l - 149 + 1023) * 4503599627370496 + g) mod 9223372036854775808 =
+                     (l - 149 + 1023) * 4503599627370496 + g).
+      { apply (proj2 (div_mod_witness (s * 9223372036854775808 + (l - 149 + 1023) * 4503599627370496 + g) 9223372036854775808 s ((l - 149 + 1023) * 4503599627370496 + g) ltac:(lia) ltac:(lia))). }
+      rewrite Hmod. lia.
+  - assert (Hmod : (s * 9223372036854775808 + (e - 127 + 1023) * 4503599627370496 + f * 536870912) mod 9223372036854775808 =
+                   (e - 127 + 1023) * 4503599627370496 + f * 536870912).
+    { apply (proj2 (div_mod_witness (s * 9223372036854775808 + (e - 127 + 1023) * 4503599627370496 + f * 536870912) 9223372036854775808 s ((e - 127 + 1023) * 4503599627370496 + f * 536870912) ltac:(lia) ltac:(lia))). }
+    rewrite Hmod. lia.
+Qed.
+
 Section Tokens.
 Variable floats : float_oracle.
+Variable fl : nat -> Z -> bytes.          (* strconv.FormatFloat(v, 'g', -1, bits), whatever it prints *)
+
+(* the token the lexer makes of one printed element *)
+Definition slot_token (k : kind) (w : nat) (x : slot) : token :=
+  match x with
+  | SX n => mk TVariable n 0
+  | SV v => match k with
+            | KBool => mk TBool (if v =? 0 then [x46] else [x54]) 0
+            | KBin => mk TNumber (x30 :: x62 :: fmt_bin v) 0
+            | KFloat => mk TNumber (fl w v) 0
+            | _ => mk TNumber (fmt_int v) 0
+            end
+  end.
+
+(* what is assumed of the float oracles: the text printed for a stored float
+   value is read back as that value at the item's width (strconv's round trip),
+   and the stored bit patterns are bit patterns of that width *)
+Definition slot_scans (k : kind) (w : nat) (x : slot) : Prop :=
+  match k, x with
+  | KFloat, SV v => scan_float floats (fl w v) w = (v, NumOk) /\ (w = 4%nat -> is_u32 v)
+  | _, _ => True
+  end.
+
+(* the argument the parser hands to the factory for one element *)
+Definition parg (k : kind) (w : nat) (x : slot) : gval :=
+  match k, x with
+  | KFloat, SV v => match w with 4%nat => GF64 (f32_to_f64 v) | _ => GF64 v end
+  | _, _ => slot_arg k w [] x
+  end.
+
+Lemma leaf_arg_parg k w x : fmt_ok k w -> slot_built k w x -> slot_scans k w x ->
+  (forall n, x = SX n -> is_valid_var_name n = true) -> leaf_arg k w (parg k w x) = Some x.
+Proof.
+  intros Hf Hb Hs Hn. destruct x as [v|n].
+  - destruct k; try (apply (conv_sv _ w [] v Hb)).
+    cbn [parg slot_built slot_scans] in *. cbn in Hf. destruct Hs as [_ Hu]. destruct Hf as [->| ->]; cbn [leaf_arg float_arg].
+    + rewrite (f32_to_f64_finite v (Hu eq_refl) Hb), (widened_in_range v (Hu eq_refl) Hb), (f32_roundtrip v (Hu eq_refl) Hb). reflexivity.
+    + rewrite Hb. reflexivity.
+  - assert (E : parg k w (SX n) = slot_arg k w [] (SX n)) by (destruct k; reflexivity). rewrite E.
+    apply (conv_sx_miss k w [] n (Hn n eq_refl)). reflexivity.
+Qed.
 
 (* one element: the parser's argument is the stored value handed back (C09_values_survive), or the name *)
-Lemma value_arg_slot k w st x : k <> KFloat -> fmt_ok k w -> slot_built k w x -> val_okb k w x = true ->
+Lemma value_arg_slot k w st x : fmt_ok k w -> slot_built k w x -> val_okb k w x = true -> slot_scans k w x ->
   (forall n, x = SX n -> known_name st n = false) ->
-  value_arg floats (nk_of k w) st (slot_token k x) =
-  Some (slot_arg k w [] x, match x with SX n => add_name st n | SV _ => st end).
+  value_arg floats (nk_of k w) st (slot_token k w x) =
+  Some (parg k w x, match x with SX n => add_name st n | SV _ => st end).
 Proof.
-  intros Hk Hf Hb Hv Hfresh. destruct x as [v|n].
-  - destruct k; try congruence; cbn [nk_of slot_token slot_arg typed_val value_arg t_typ t_val mk].
+  intros Hf Hb Hv Hsc Hfresh. destruct x as [v|n].
+  - destruct k; cbn [nk_of slot_token parg slot_arg typed_val value_arg t_typ t_val mk].
     + (* binary *) cbn in Hv. apply andb_true_iff in Hv as [A C]. apply Z.leb_le in A. apply Z.ltb_lt in C.
       rewrite parse_int_binary by lia. destruct (Z.leb_spec 0 v); [|lia]. destruct (Z.ltb_spec v 256); [|lia]. reflexivity.
     + (* boolean *) cbn in Hb. destruct Hb as [->| ->]; reflexivity.
@@ -71,20 +134,23 @@ Proof.
       assert (Hbits : 0 < 8 * Z.of_nat w /\ 256 ^ Z.of_nat w = 2 ^ (8 * Z.of_nat w)).
       { cbn in Hf. destruct Hf as [->|[->|[->| ->]]]; split; reflexivity. }
       destruct Hbits as [Hb1 Hb2]. rewrite Hb2 in *. rewrite parse_uint_fmt by (lia || exact Hb1). reflexivity.
-  - cbn [slot_token slot_arg flookup]. unfold value_arg. cbn [t_typ t_val mk]. rewrite (Hfresh n eq_refl). reflexivity.
+    + (* float: the oracle's round trip *)
+      cbn [slot_scans] in Hsc. destruct Hsc as [Hsc _]. rewrite Hsc. cbn in Hf. destruct Hf as [->| ->]; reflexivity.
+  - assert (E : parg k w (SX n) = GStr n) by (destruct k; reflexivity). rewrite E.
+    cbn [slot_token]. unfold value_arg. cbn [t_typ t_val mk]. rewrite (Hfresh n eq_refl). destruct k; reflexivity.
 Qed.
 
-Lemma slot_token_is_value k x :
-  match t_typ (slot_token k x) with TNumber | TBool | TVariable => True | _ => False end.
+Lemma slot_token_is_value k w x :
+  match t_typ (slot_token k w x) with TNumber | TBool | TVariable => True | _ => False end.
 Proof. destruct x as [v|n]; [destruct k|]; exact I. Qed.
 
 (* getDataItemValueTokens takes exactly the element tokens, up to '>' *)
-Lemma value_tokens_slots k rab rest : t_typ rab = TRAB -> forall xs,
-  value_tokens (map (slot_token k) xs ++ rab :: rest) = (map (slot_token k) xs, rab :: rest).
+Lemma value_tokens_slots k w rab rest : t_typ rab = TRAB -> forall xs,
+  value_tokens (map (slot_token k w) xs ++ rab :: rest) = (map (slot_token k w) xs, rab :: rest).
 Proof.
   intros Hr. induction xs as [|x xs IH]; cbn [map app value_tokens].
   - rewrite Hr. reflexivity.
-  - pose proof (slot_token_is_value k x) as Hx. destruct (t_typ (slot_token k x)); try contradiction; rewrite IH; reflexivity.
+  - pose proof (slot_token_is_value k w x) as Hx. destruct (t_typ (slot_token k w x)); try contradiction; rewrite IH; reflexivity.
 Qed.
 
 Lemma nodupb_cons n ns : nodupb (n :: ns) = true -> existsb (bytes_eqb n) ns = false /\ nodupb ns = true.
@@ -98,20 +164,20 @@ Lemma names_char_refl st : names_char st st [].
 Proof. intro m. cbn. rewrite orb_false_r. reflexivity. Qed.
 
 (* the loop over the element tokens: no diagnostics, the names are recorded, the arguments are the stored values *)
-Lemma value_args_slots k w : k <> KFloat -> fmt_ok k w -> forall xs st,
-  Forall (slot_built k w) xs -> forallb (val_okb k w) xs = true -> nodupb (slot_vars xs) = true ->
+Lemma value_args_slots k w : fmt_ok k w -> forall xs st,
+  Forall (slot_built k w) xs -> forallb (val_okb k w) xs = true -> Forall (slot_scans k w) xs -> nodupb (slot_vars xs) = true ->
   (forall n, In n (slot_vars xs) -> known_name st n = false) ->
-  exists st', value_args floats (nk_of k w) st (map (slot_token k) xs) = (Some (map (slot_arg k w []) xs), st') /\
+  exists st', value_args floats (nk_of k w) st (map (slot_token k w) xs) = (Some (map (parg k w) xs), st') /\
               toks st' = toks st /\ errs st' = errs st /\ warns st' = warns st /\ msgs st' = msgs st /\ crashed st' = crashed st /\
               names_char st st' (slot_vars xs).
 Proof.
-  intros Hk Hf. induction xs as [|x xs IH]; intros st Hb Hv Hn Hfresh.
+  intros Hf. induction xs as [|x xs IH]; intros st Hb Hv Hsc Hn Hfresh.
   - exists st. repeat split. apply names_char_refl.
-  - inversion Hb as [|? ? Hbx Hbr]; subst. cbn [forallb] in Hv. apply andb_true_iff in Hv as [Hvx Hvr].
+  - inversion Hb as [|? ? Hbx Hbr]; subst. inversion Hsc as [|? ? Hscx Hscr]; subst. cbn [forallb] in Hv. apply andb_true_iff in Hv as [Hvx Hvr].
     cbn [map value_args].
     assert (Hfx : forall n, x = SX n -> known_name st n = false).
     { intros n ->. apply Hfresh. left. reflexivity. }
-    rewrite (value_arg_slot k w st x Hk Hf Hbx Hvx Hfx).
+    rewrite (value_arg_slot k w st x Hf Hbx Hvx Hscx Hfx).
     set (st1 := match x with SX n => add_name st n | SV _ => st end).
     assert (Hn' : nodupb (slot_vars xs) = true).
     { destruct x as [v|n]; [exact Hn|]. apply (nodupb_cons n (slot_vars xs)). exact Hn. }
@@ -122,7 +188,7 @@ Proof.
         destruct (nodupb_cons n (slot_vars xs) Hn) as [Hnot _].
         destruct (bytes_eqb m n) eqn:E; [|reflexivity]. apply bytes_eqb_spec in E. subst m. exfalso.
         rewrite <- not_true_iff_false in Hnot. apply Hnot. apply existsb_exists. exists n. split; [exact Hm|apply bytes_eqb_refl]. }
-    destruct (IH st1 Hbr Hvr Hn' Hfresh') as [st' [E [H1 [H2 [H3 [H4 [H5 H6]]]]]]]. rewrite E.
+    destruct (IH st1 Hbr Hvr Hscr Hn' Hfresh') as [st' [E [H1 [H2 [H3 [H4 [H5 H6]]]]]]]. rewrite E.
     exists st'. split; [reflexivity|]. subst st1. destruct x as [v|n]; repeat split; try assumption.
     intro m. rewrite (H6 m). unfold known_name, add_name. cbn [names existsb slot_vars flat_map app].
     change (flat_map (fun s0 : slot => match s0 with SV _ => [] | SX n0 => [n0] end) xs) with (slot_vars xs).
@@ -130,35 +196,41 @@ Proof.
 Qed.
 
 (* the factory accepts the arguments and builds the very same item *)
-Lemma new_leaf_of_slots k w xs :
-  Forall (slot_built k w) xs -> size_ok (size_typ k w) (length xs) = true -> width_okb k w = true ->
+Lemma new_leaf_of_slots k w xs : fmt_ok k w ->
+  Forall (slot_built k w) xs -> Forall (slot_scans k w) xs -> size_ok (size_typ k w) (length xs) = true -> width_okb k w = true ->
   forallb (val_okb k w) xs = true -> names_ok xs = true ->
-  new_leaf k w (map (slot_arg k w []) xs) = Some (ILeaf k w xs).
+  new_leaf k w (map (parg k w) xs) = Some (ILeaf k w xs).
 Proof.
-  intros Hb Hs Hw Hv Hn. unfold new_leaf. rewrite map_length, Hs. cbn [negb].
-  rewrite map_opt_map. change (fun x => leaf_arg k w (slot_arg k w [] x)) with (conv k w []).
-  rewrite (conv_identity k w [] xs Hb Hn) by (unfold hits; induction (slot_vars xs); [reflexivity|assumption]).
-  rewrite Hw, Hv, Hn. reflexivity.
+  intros Hf Hb Hsc Hs Hw Hv Hn. unfold new_leaf. rewrite map_length, Hs. cbn [negb].
+  assert (E : map_opt (leaf_arg k w) (map (parg k w) xs) = Some xs).
+  { rewrite map_opt_map.
+    assert (G : forall x, In x xs -> leaf_arg k w (parg k w x) = Some x).
+    { intros x Hin. rewrite Forall_forall in Hb, Hsc. apply leaf_arg_parg; [exact Hf|apply Hb; exact Hin|apply Hsc; exact Hin|].
+      intros n ->. eapply names_ok_valid; eassumption. }
+    clear -G. induction xs as [|x r IH]; [reflexivity|]. cbn. rewrite (G x (or_introl eq_refl)), IH; [reflexivity|].
+    intros y Hy. apply G. right. exact Hy. }
+  rewrite E, Hw, Hv, Hn. reflexivity.
 Qed.
 
 (* the value part of a printed item "<TYPE[n] e1 ... en>" parses back to the item *)
 Theorem leaf_parses_back k w xs st rab rest :
-  k <> KFloat -> fmt_ok k w ->
-  Forall (slot_built k w) xs -> size_ok (size_typ k w) (length xs) = true -> width_okb k w = true ->
+  fmt_ok k w ->
+  Forall (slot_built k w) xs -> Forall (slot_scans k w) xs -> size_ok (size_typ k w) (length xs) = true -> width_okb k w = true ->
   forallb (val_okb k w) xs = true -> names_ok xs = true ->
   (forall n, In n (slot_vars xs) -> known_name st n = false) ->
-  toks st = map (slot_token k) xs ++ rab :: rest -> t_typ rab = TRAB ->
+  toks st = map (slot_token k w) xs ++ rab :: rest -> t_typ rab = TRAB ->
   exists st', parse_numeric floats (nk_of k w) st = (IOk (ILeaf k w xs), st') /\
               toks st' = rab :: rest /\ errs st' = errs st /\ warns st' = warns st /\ msgs st' = msgs st /\ names_char st st' (slot_vars xs).
 Proof.
-  intros Hk Hf Hb Hs Hw Hv Hn Hfresh Ht Hr. unfold parse_numeric, take_values. rewrite Ht, (value_tokens_slots k rab rest Hr xs).
+  intros Hf Hb Hsc Hs Hw Hv Hn Hfresh Ht Hr. unfold parse_numeric, take_values. rewrite Ht, (value_tokens_slots k w rab rest Hr xs).
   set (st0 := {| toks := rab :: rest; names := names st; ecount := ecount st; errs := errs st; warns := warns st; msgs := msgs st; crashed := crashed st |}).
   assert (Hnd : nodupb (slot_vars xs) = true) by (unfold names_ok in Hn; apply andb_true_iff in Hn as [_ Hn]; exact Hn).
-  destruct (value_args_slots k w Hk Hf xs st0 Hb Hv Hnd Hfresh) as [st' [E [H1 [H2 [H3 [H4 [_ H6]]]]]]].
+  destruct (value_args_slots k w Hf xs st0 Hb Hv Hsc Hnd Hfresh) as [st' [E [H1 [H2 [H3 [H4 [_ H6]]]]]]].
   rewrite E.
-  assert (Hbuild : build (nk_of k w) (map (slot_arg k w []) xs) = Some (ILeaf k w xs)).
-  { destruct k; try congruence; cbn [nk_of build]; unfold new_int, new_uint, new_binary, new_boolean;
-      try (cbn in Hf; subst w); apply new_leaf_of_slots; assumption. }
+  assert (Hbuild : build (nk_of k w) (map (parg k w) xs) = Some (ILeaf k w xs)).
+  { pose proof (new_leaf_of_slots k w xs Hf Hb Hsc Hs Hw Hv Hn) as Hnl.
+    destruct k; cbn [nk_of build]; unfold new_int, new_uint, new_float, new_binary, new_boolean;
+      try (cbn in Hf; subst w); exact Hnl. }
   rewrite Hbuild. exists st'. repeat split; assumption.
 Qed.
 
@@ -166,30 +238,31 @@ Qed.
 Definition leaf_tokens (k : kind) (w : nat) (xs : list slot) : list token :=
   [mk TLAB [x3c] 0; mk TItemType (leaf_tag k w) 0;
    mk TItemSize ([x5b] ++ fmt_unsigned 10 (Z.of_nat (length xs)) ++ [x5d]) 0]
-  ++ map (slot_token k) xs ++ [mk TRAB [x3e] 0].
+  ++ map (slot_token k w) xs ++ [mk TRAB [x3e] 0].
 
-Lemma nk_of_leaf_tag k w : k <> KFloat -> fmt_ok k w ->
+Lemma nk_of_leaf_tag k w : fmt_ok k w ->
   bytes_eqb (leaf_tag k w) (B"L"%string) = false /\ bytes_eqb (leaf_tag k w) (B"A"%string) = false /\
   nk_of_type (leaf_tag k w) = Some (nk_of k w).
 Proof.
-  intros Hk Hf. destruct k; try congruence; cbn in Hf.
+  intros Hf. destruct k; cbn in Hf.
   - subst w. repeat split.
   - subst w. repeat split.
   - destruct Hf as [->|[->|[->| ->]]]; repeat split.
   - destruct Hf as [->|[->|[->| ->]]]; repeat split.
+  - destruct Hf as [->| ->]; repeat split.
 Qed.
 
 Theorem leaf_item_parses_back rec_list k w xs st rest :
-  k <> KFloat -> fmt_ok k w ->
-  Forall (slot_built k w) xs -> size_ok (size_typ k w) (length xs) = true -> width_okb k w = true ->
+  fmt_ok k w ->
+  Forall (slot_built k w) xs -> Forall (slot_scans k w) xs -> size_ok (size_typ k w) (length xs) = true -> width_okb k w = true ->
   forallb (val_okb k w) xs = true -> names_ok xs = true ->
   (forall n, In n (slot_vars xs) -> known_name st n = false) ->
   toks st = leaf_tokens k w xs ++ rest ->
   exists st', parse_item_body floats rec_list st = (Some (ILeaf k w xs), st') /\
               toks st' = rest /\ errs st' = errs st /\ warns st' = warns st /\ msgs st' = msgs st /\ names_char st st' (slot_vars xs).
 Proof.
-  intros Hk Hf Hb Hs Hw Hv Hn Hfresh Ht.
-  destruct (nk_of_leaf_tag k w Hk Hf) as [HL [HA Hnk]].
+  intros Hf Hb Hsc Hs Hw Hv Hn Hfresh Ht.
+  destruct (nk_of_leaf_tag k w Hf) as [HL [HA Hnk]].
   unfold leaf_tokens in Ht. cbn [app] in Ht.
   unfold parse_item_body. unfold advance, peek.
   repeat (cbn [toks tl names ecount errs warns msgs crashed]; rewrite ?Ht).
@@ -197,17 +270,17 @@ Proof.
   assert (Hlen : 0 <= Z.of_nat (length xs) < two63).
   { split; [lia|]. unfold size_ok in Hs. apply negb_true_iff in Hs. unfold data_byte_length, MAX_BYTE_SIZE in Hs.
     unfold two63. destruct (lookup (size_typ k w) byte_per_value =? 0) eqn:E0.
-    - (* every format has a positive width *) exfalso. destruct k; try congruence; cbn in Hf; try subst w; try (destruct Hf as [->|[->|[->| ->]]]); discriminate E0.
+    - (* every format has a positive width *) exfalso. destruct k; cbn in Hf; try subst w; try (destruct Hf as [->|[->|[->| ->]]]); try (destruct Hf as [->| ->]); discriminate E0.
     - assert (Hpos : 1 <= lookup (size_typ k w) byte_per_value).
-      { destruct k; try congruence; cbn in Hf; try subst w; try (destruct Hf as [->|[->|[->| ->]]]); cbn; lia. }
+      { destruct k; cbn in Hf; try subst w; try (destruct Hf as [->|[->|[->| ->]]]); try (destruct Hf as [->| ->]); cbn; lia. }
       rewrite Z.gtb_ltb in Hs. apply Z.ltb_ge in Hs. nia. }
   cbn [toks names ecount errs warns msgs crashed tl].
   assert (Hps : parse_size (x5b :: fmt_unsigned 10 (Z.of_nat (length xs)) ++ [x5d]) = (Z.of_nat (length xs), Z.of_nat (length xs)))
     by exact (parse_size_exact (Z.of_nat (length xs)) Hlen).
   rewrite Hps, HL, HA, Hnk. rewrite <- app_assoc. cbn [app].
-  set (st3 := {| toks := map (slot_token k) xs ++ mk TRAB [x3e] 0 :: rest; names := names st; ecount := ecount st;
+  set (st3 := {| toks := map (slot_token k w) xs ++ mk TRAB [x3e] 0 :: rest; names := names st; ecount := ecount st;
                  errs := errs st; warns := warns st; msgs := msgs st; crashed := crashed st |}).
-  destruct (leaf_parses_back k w xs st3 (mk TRAB [x3e] 0) rest Hk Hf Hb Hs Hw Hv Hn Hfresh eq_refl eq_refl)
+  destruct (leaf_parses_back k w xs st3 (mk TRAB [x3e] 0) rest Hf Hb Hsc Hs Hw Hv Hn Hfresh eq_refl eq_refl)
     as [st' [E [H1 [H2 [H3 [H5 H4]]]]]].
   match goal with |- context [parse_numeric floats (nk_of k w) ?s] => change s with st3 end.
   rewrite E. cbv beta iota zeta. cbn [item_size_for_check size].
